@@ -96,6 +96,23 @@ def _rule_grammar_inner(ctx):
     yield ob("C10.GRAMMAR", f, "chord.validate_chord_label:raise-iff-nomatch", guarded, "raises InvalidChordException exactly when CHORD_RE.%s(label) fails" % method, node=use.node)
     arg_ok = len(use.args) == 1 and use.args[0].op == "param"
     yield ob("C10.GRAMMAR", f, "chord.validate_chord_label:subject", arg_ok, "the whole label is matched")
+    # ... and accepts only then: a return that does not depend on the match (a fast path for "simple" labels) accepts
+    # exactly the strings its own condition describes; that set must lie inside the grammar
+    for k, r in enumerate(s.returns):
+        conds = list(symeval.pc_conds(r.pc))
+        if any((c is use.term and p) or (c.op == "cmp" and c.a[0] == "isnot" and any(z is use.term for z in c.a[1:]) and p) or (c.op == "cmp" and c.a[0] == "is" and any(z is use.term for z in c.a[1:]) and not p) for c, p in conds):
+            continue
+        lang, exact, negs = _fastpath_language(ctx, conds, use.args[0] if use.args else None)
+        if lang is None:
+            raise AnalysisError("C10.GRAMMAR", "validate_chord_label accepts labels on a path that does not consult CHORD_RE (under %s), and that condition is not one the string model covers" % "; ".join(tm.show(c, 3) for c, _ in conds))
+        L = regexfa.Automaton(lang, rule="C10.GRAMMAR")
+        w = regexfa.excess(L, A)
+        if w is None:
+            yield ob("C10.GRAMMAR", f, "chord.validate_chord_label:fast-path@%d" % (k + 1), True, "the labels accepted without the regex (%s) all belong to the grammar" % lang, node=r.node)
+            continue
+        if not exact or any(w in ng for ng in negs):
+            raise AnalysisError("C10.GRAMMAR", "validate_chord_label accepts labels without consulting CHORD_RE under %s; only part of that condition is modelled (as %s) and that part alone admits %r, which the grammar rejects" % ("; ".join(tm.show(c, 3) for c, _ in conds), lang, w))
+        yield ob("C10.GRAMMAR", f, "chord.validate_chord_label:fast-path@%d" % (k + 1), False, "a path that does not consult CHORD_RE accepts %r (every label matching %s), which the Harte grammar rejects" % (w, lang), node=r.node, detail={"witness": w})
     B = regexfa.Automaton(reference_pattern(), rule="C10.GRAMMAR")
     d = regexfa.difference(A, B)
     if d is None:
@@ -106,6 +123,126 @@ def _rule_grammar_inner(ctx):
     # tiny positive example that must differ on every run (rule with expected count zero)
     C = regexfa.Automaton(reference_pattern().replace("|hdim7", ""), rule="C10.GRAMMAR")
     need(regexfa.difference(B, C) is not None, "C10.GRAMMAR", "self-test: removing a shorthand from the grammar is not detected")
+
+
+def _fastpath_language(ctx, conds, label):
+    """(regex, exact, excluded-sets): the strings for which a conjunction of simple string tests on the label holds.
+    Modelled: `label in (constants)`, `label == constant`, `label[:1] in TABLE` / `label[0] in TABLE`, `not
+    label[1:].strip(chars)`, `len(label) == 1`.  Tests that must be *false* on the path only shrink the set: they are
+    left out (the regex then describes a superset) except `label not in (constants)`, returned as excluded sets.
+    `exact` is False as soon as a test that must be true is left out."""
+    import re as _re
+
+    mod = ctx.program.modules["chord"]
+
+    def const_strs(t):
+        """the strings a display / module constant holds (keys of a dict), or None"""
+        if t.op == "const" and isinstance(t.a[0], str):
+            return [t.a[0]], "str"
+        if t.op == "glob":
+            v = mod.const_values.get(t.a[0].split(".", 1)[1]) if t.a[0].startswith("chord.") else None
+            if v is None:
+                try:
+                    v = table(ctx, t.a[0], "C10.GRAMMAR")
+                except AnalysisError:
+                    v = None
+            if isinstance(v, str):
+                return [v], "str"
+            if isinstance(v, (dict, tuple, list, set, frozenset)) and all(isinstance(x, str) for x in v):
+                return list(v), "coll"
+            return None
+        if t.op in ("tuple", "list", "set"):
+            out = []
+            for x in t.a:
+                r_ = const_strs(x)
+                if r_ is None or r_[1] != "str":
+                    return None
+                out += r_[0]
+            return out, "coll"
+        if t.op == "dict":
+            out = []
+            for kv in t.a:
+                r_ = const_strs(kv.a[0])
+                if r_ is None or r_[1] != "str":
+                    return None
+                out += r_[0]
+            return out, "coll"
+        return None
+
+    lits = []
+    for c, p in conds:
+        common.decompose(c, p, lits) if hasattr(common, "decompose") and False else None
+    # own decomposition: conjunctions that hold, disjunctions that fail
+    def split(c, p):
+        if c.op == "un" and c.a[0] == "not":
+            split(c.a[1], not p)
+        elif c.op == "bool" and ((c.a[0] == "and" and p) or (c.a[0] == "or" and not p)):
+            for x in c.a[1:]:
+                split(x, p)
+        else:
+            lits.append((c, p))
+
+    for c, p in conds:
+        split(c, p)
+    finite = None
+    first = None
+    first_allows_empty = False
+    rest = None
+    exact = True
+    negs = []
+    is_label = lambda t: label is not None and t is label
+    for c, p in lits:
+        if c.op == "cmp" and c.a[0] in ("in", "notin", "==", "!=") and is_label(c.a[1] if c.a[0] in ("in", "notin") else (c.a[1] if is_label(c.a[1]) else c.a[2])):
+            other = c.a[2] if is_label(c.a[1]) else c.a[1]
+            cs = const_strs(other)
+            holds = (c.a[0] in ("in", "==")) == p
+            if cs is not None and (c.a[0] in ("==", "!=") or cs[1] == "coll"):
+                if holds:
+                    finite = set(cs[0]) if finite is None else finite & set(cs[0])
+                else:
+                    negs.append(set(cs[0]))
+                continue
+        if c.op == "cmp" and c.a[0] in ("in", "notin") and c.a[1].op == "sub" and is_label(c.a[1].a[0]) and ((c.a[0] == "in") == p):
+            ix = c.a[1].a[1]
+            head = (ix.op == "slice" and tm.is_const(ix.a[0], None) and tm.is_const(ix.a[1], 1) and tm.is_const(ix.a[2], None)) or tm.is_const(ix, 0)
+            cs = const_strs(c.a[2])
+            if head and cs is not None:
+                chars = [x for x in (cs[0] if cs[1] == "coll" else list(cs[0][0])) if len(x) == 1]
+                first = set(chars) if first is None else first & set(chars)
+                if cs[1] == "str" and ix.op == "slice":
+                    first_allows_empty = True  # '' in 'ABC' is True
+                continue
+        t = c
+        if t.op == "call" and call_name(t) == ".strip" and len(t.a[1]) == 2 and not p:
+            base, chars = t.a[1]
+            if base.op == "sub" and is_label(base.a[0]) and base.a[1].op == "slice" and tm.is_const(base.a[1].a[0], 1) and tm.is_const(base.a[1].a[1], None) and chars.op == "const" and isinstance(chars.a[0], str):
+                rest = set(chars.a[0]) if rest is None else rest & set(chars.a[0])
+                continue
+        if c.op == "cmp" and c.a[0] == "==" and p and any(tm.is_const(z, 1) for z in c.a[1:]) and any(z.op == "call" and call_name(z) == "builtins.len" and is_label(z.a[1][0]) for z in c.a[1:]):
+            rest = set() if rest is None else set()
+            continue
+        if p or True:
+            # a test that is not modelled: leaving it out keeps a superset
+            exact = False
+    if finite is not None:
+        return "(%s)\\Z" % "|".join(_re.escape(x) for x in sorted(finite)), exact, negs
+    if first is None and rest is None:
+        return None, False, negs
+
+    def cls(chars):
+        return "[%s]" % "".join(_re.escape(x) for x in sorted(chars))
+
+    head = cls(first) if first else ("." if first is None else None)
+    if head is None:
+        return "\\Z", exact, negs  # no first character possible: only the empty label (if at all)
+    tail = "" if rest is None else ("%s*" % cls(rest) if rest else "")
+    if rest is None:
+        pat = "%s" % head  # anything may follow: .match semantics without an end anchor
+        return (("(%s)?" % head) if first_allows_empty else head), exact, negs
+    body = "%s%s" % (head, tail)
+    if first_allows_empty or first is None:
+        body = "(%s)?" % body  # label[1:] of the empty label is empty too
+    return body + "\\Z", exact, negs
 
 
 def rule_splitsafe(ctx):
